@@ -351,7 +351,7 @@ impl Harness for C13 {
         // ---- exhaustive lattices: every SEQUENCE of n points (order matters: scan order decides the
         // numbering of the clusters and which cluster a border point joins)
         //                 lattice          f64 n_max (q,t)  f32 n_max (q,t)
-        let lattices = [(Lattice::Line5, (6, 9), (4, 6)), (Lattice::Grid3, (4, 6), (3, 4)), (Lattice::Cube3, (4, 5), (0, 4)), (Lattice::Cube4, (3, 4), (0, 3))];
+        let lattices = [(Lattice::Line5, (6, 9), (4, 6)), (Lattice::Grid3, (4, 6), (3, 4)), (Lattice::Cube3, (4, 5), (0, 4)), (Lattice::Cube4, (3, 4), (0, 3)), (Lattice::LineAdj, (5, 6), (4, 5))];
         let mut lattice_bounds = Vec::new();
         for width in [64u8, 32] {
             for (lat, n64, n32) in lattices {
